@@ -7,6 +7,7 @@ import (
 	"errors"
 	"fmt"
 	"os"
+	"runtime"
 	"runtime/debug"
 	"strings"
 
@@ -28,6 +29,12 @@ var linked = map[string]bool{"sha256": true, "sha384": true, "sha512": true}
 // availabilityCases tells the model which algorithms are available ("A" lines configure the
 // model runner) and fails the run (exit 3, layer R) when the binary does not link what it claims.
 func availabilityCases() {
+	// Model/NetURL.v is a model of net/url as of go1.26.8 (host parsing differs between Go releases)
+	if runtime.Version() != "go1.26.8" {
+		fmt.Fprintf(os.Stderr, "toolchain is %s, Model/NetURL.v models net/url of go1.26.8: review the model\n", runtime.Version())
+		run.Finish()
+		os.Exit(3)
+	}
 	// the model of Digest.Validate is of the pinned go-digest v1.0.0 (three algorithms, fixed
 	// table): any other version must be reviewed, not silently accepted
 	if bi, ok := debug.ReadBuildInfo(); ok {
@@ -416,6 +423,46 @@ func randomValid(r *common.Rand) string {
 		}
 		return s + ":" + t + "@" + common.Pick(r, digestPool)
 	}
+}
+
+// registryCase: Reference.ValidateRegistry on its own (any string, also ones ParseReference never
+// produces because it splits at the first '/'): implementation vs Model/NetURL.v (correspondence)
+// vs the conservative recogniser (oracle, where it decides).
+func registryCase(reg string) {
+	id := run.NewID()
+	got := registry.Reference{Registry: reg}.ValidateRegistry() == nil
+	run.Case(id, "G "+common.Hex(reg), fmt.Sprintf("REG %v", got))
+	run.Count("registry")
+	if got {
+		run.Count("registry_ok")
+		run.Nontrivial("G:" + reg)
+		if strings.HasPrefix(reg, "[") {
+			run.Count("registry_ok_bracket")
+		}
+		if c, bad := registryBadByte(reg); bad {
+			run.OracleFail(id, "registry-charset", fmt.Sprintf("ValidateRegistry accepts %q containing byte %#x", reg, c), map[string]string{"op": "G", "input": reg})
+		}
+	}
+	if v := registryVerdict(reg); v >= 0 && !strings.Contains(reg, "/") && (v == 1) != got {
+		run.OracleFail(id, "registry-accept", fmt.Sprintf("ValidateRegistry(%q) accepted=%v, recogniser says %v", reg, got, v == 1), map[string]string{"op": "G", "input": reg})
+	}
+}
+
+func randRegistry(r *common.Rand) string {
+	hosts := []string{"localhost", "a", "registry.example.com", "127.0.0.1", "a-b.c_d", "UP.Example", "xn--bcher-kva.example", "a~b", "a!b", "a$b&c", "(a)", "a*b", "a+b", "a,b;c=d", "a<b>", "a\"b", "\xc3\xa9.example",
+		"[::1]", "[fe80::1]", "[2001:db8::1]", "[::ffff:1.2.3.4]", "[fe80::1%25en0]", "[fe80::1%25e%20n]", "[1.2.3.4]", "[::1", "::1]", "[]", "[:]", "[g::1]", "[fe80::1%en0]", "[::1%25]", "a[b]", "[a]b"}
+	ports := []string{"", "", ":", ":5000", ":443", ":0", ":65536", ":99999999999999999999", ":a", ":5a", ":-1", "::5", ":5:6", ":5000:", ": 5"}
+	s := common.Pick(r, hosts) + common.Pick(r, ports)
+	switch r.Intn(8) {
+	case 0:
+		s = common.Pick(r, []string{"u@", "u:p@", "@", "%41@", "a@b@"}) + s
+	case 1:
+		s += common.Pick(r, []string{"?", "?x", "?x=1", "#f", "#", "/p", "/", "%41", "%C3%A9", "%c3%a9", "%", "%4", "%zz", "%25", "%2525", " ", "\\", "^", "`", "{}", "|", "\x7f", "\x00", "\t"})
+	}
+	for k := r.Intn(3); k > 0 && r.Chance(1, 3); k-- {
+		s = mutate(r, s)
+	}
+	return s
 }
 
 // constructedCase: ground truth by construction, not by re-splitting the string: the reference is
